@@ -127,6 +127,10 @@ def h_roundtrip(S, B):
     v = wrap(wk, leaf)
     r_args = attempt(lambda: ser.loadsCall(ser.dumpsCall("obj", "method", (v,), {"kw": v})))
     r_res = attempt(lambda: ser.loads(ser.dumps(v)))
+    # the two other call forms the client sends: a batch (kwargs is None, the calls are the positional arguments)
+    # and an attribute write (kwargs is None)
+    r_batch = attempt(lambda: ser.loadsCall(ser.dumpsCall("obj", "<batch>", [("method", (v,), {"kw": v})], None)))
+    r_attr = attempt(lambda: ser.loadsCall(ser.dumpsCall("obj", "__setattr__", ("name", v), None)))
     S.cover("ser:" + sname)
     ext_leaf = lk in ("bigint", "complex", "date", "datetime") or (lk == "int" and not S.must(And(leaf >= -(2 ** 63), leaf < 2 ** 64)))
     S.known("C01-msgpack-arguments-are-decoded-without-the-ext-hook", And(sname == "msgpack", ext_leaf),
@@ -137,6 +141,18 @@ def h_roundtrip(S, B):
         v_pos, v_kw = vargs[0], kwargs["kw"]
         S.check("positional-and-keyword-arguments-map-alike", same(v_pos, v_kw))
     S.check("arguments-and-results-serialise-alike", r_args[0] == r_res[0])
+    S.check("attribute-call-form-serialises-like-a-plain-call", r_attr[0] == r_args[0])
+    # (in a batch the value is nested one level deeper; serializers that convert only top-level arguments -- marshal --
+    #  may refuse a non-core value there that they accept as a direct argument: demanded for the lossless core only)
+    if lk in CORE_LEAVES and wk in CORE_WRAPS:
+        S.check("batch-call-form-serialises-like-a-plain-call", r_batch[0] == r_args[0])
+    if r_args[0] == "value" and r_batch[0] == "value" and r_attr[0] == "value":
+        b_obj, b_method, b_calls, b_kwargs = r_batch[1]
+        S.check("batch-call-header-unchanged", b_obj == "obj" and b_method == "<batch>" and len(b_calls) == 1 and not b_kwargs)
+        S.check("batch-member-arguments-map-like-plain-arguments",
+                And(b_calls[0][0] == "method", same(b_calls[0][1][0], v_pos), same(b_calls[0][2]["kw"], v_pos)))
+        a_obj, a_method, a_vargs, a_kwargs = r_attr[1]
+        S.check("attribute-write-maps-like-plain-arguments", And(a_method == "__setattr__", a_vargs[0] == "name", same(a_vargs[1], v_pos)))
     if r_res[0] == "raised":
         S.cover("unsupported:" + sname)
         # a serializer may refuse a type it does not support, but never a lossless-core value
